@@ -76,7 +76,7 @@ type Script struct {
 	Views      []NodeRef `json:"views"`
 	ClaimExtra []int     `json:"claim_extra,omitempty"`
 	// Prefill heights of the main branch already in the stores.
-	Prefill int     `json:"prefill,omitempty"`
+	Prefill int `json:"prefill,omitempty"`
 	// InitLies[i], if Mut != "", mutates the reply of peer i to the first
 	// getheaders it receives (a dishonest peer during initial sync).
 	InitLies []Event `json:"init_lies,omitempty"`
